@@ -111,7 +111,7 @@ def step (st : St) (ws : List String) : St × String :=
     let i := Inst.fresh 1 st.genesis
     (setV (setO (setInst st (nat! k) i) (nat! k) (Model.Orderer.initial 1 (mkVals st.genesis))) (nat! k)
        (Model.Vec.VState.init i.nv), stateStr i)
-  | ["restart", k] =>
+  | ["restart", k] | ["restart", k, _] =>
     let i := getInst st (nat! k)
     let o := getO st (nat! k)
     match Model.Orderer.bootstrap (envOf st i) o with
